@@ -248,12 +248,17 @@ def restoreFrame (caller σ : RSt) : RSt :=
 
 /-- enter a list item: a frame of its own (no named parameters), the same stack, one more function object -/
 def enterItem (σ : RSt) : RSt :=
-  { σ with params := [], shadow := σ.params.map (·.1) ++ σ.shadow, depth := σ.depth + 1,
-           fns := σ.fns ++ [⟨0, Option.none, [], [], false⟩] }
+  { σ with params := [], shadow := σ.params.map (·.1) ++ σ.shadow, depth := σ.depth + 1 }
+
+/-- the function object of a `def list_item` / `def VAR_name`: only its number matters here -/
+def RSt.allocFn (σ : RSt) : RSt := { σ with fns := σ.fns ++ [⟨0, Option.none, [], [], false⟩] }
 
 /-- what a list item contributes: nothing if it leaves its stack empty, else its top -/
 def itemResult (σ : RSt) : Option Val × RSt :=
-  if σ.stack.isEmpty then (Option.none, σ) else (some σ.pop1.1, σ.pop1.2)
+  if σ.stack.isEmpty then (Option.none, σ)
+  else match σ.pop1.1 with
+    | .none => (Option.none, σ.pop1.2)      -- (Python's `None` never is a stack value; it would be dropped like this)
+    | v => (some v, σ.pop1.2)
 
 /-- the result of a lambda body: its top of stack, or what a `break` returned -/
 def lamResult (sg : Sig) (σ : RSt) : R (Val × RSt) :=
@@ -433,10 +438,10 @@ def listItems (cfg : Cfg) : Nat → List (List Structure) → RSt → R (List Va
   | 0, _ :: _, _ => .error .fuel
   | n + 1, item :: rest, σ =>
       do
-        let (sg, σ1) ← execL cfg n item (enterItem σ)
+        let (sg, σ1) ← execL cfg n item (enterItem σ.allocFn)
         match sg with
         | .normal =>
-            let (vs, σ4) ← listItems cfg (n + 1) rest (restoreFrame σ (itemResult σ1).2)
+            let (vs, σ4) ← listItems cfg (n + 1) rest (restoreFrame σ.allocFn (itemResult σ1).2)
             .ok ((match (itemResult σ1).1 with | some v => v :: vs | Option.none => vs), σ4)
         | _ => .error (.unmodelled "break inside a list item")
 termination_by n items _ => (n, 1, items.length)
